@@ -314,6 +314,27 @@ fn run(case: &Value) -> Value {
             json!({ "ok": { "unit_equal": u2 == n.unit, "unit_text": [n.unit.to_string(), u2.to_string()], "unit": unit_json(&u2), "rational_cbor_equal": r2 == n.value, "rational_json_equal": r3 == n.value } })
         }
         "open_sequence" => open_sequence(case),
+        "query_sequence" => {
+            // queries[0] then queries[1] against ONE database; queries[1] alone against a fresh one
+            let qs: Vec<String> = case["queries"].as_array().cloned().unwrap_or_default().iter().filter_map(|v| v.as_str().map(|s| s.to_owned())).collect();
+            if qs.len() != 2 { return json!({ "err": "two queries expected" }); }
+            let eval = |db: &anything::Db, q: &str| -> Value {
+                let parsed = match anything::parse(q) { Ok(p) => p, Err(e) => return json!({ "err": e.to_string() }) };
+                let mut d = Vec::new();
+                let mut rs = Vec::new();
+                for r in anything::query(&parsed, db, anything::Options::default().describe(), &mut d) {
+                    match r { Ok(n) => rs.push(json!({ "ok": rat_json(&n.value), "unit": n.unit.to_string() })), Err(e) => rs.push(json!({ "err": e.to_string() })) }
+                }
+                let ds: Vec<Value> = d.iter().map(|x| match x { anything::Description::Constant(q, c) => json!([q.to_string(), c.description.to_string()]) }).collect();
+                json!({ "results": rs, "descriptions": ds })
+            };
+            let db1 = match anything::Db::in_memory() { Ok(d) => d, Err(e) => return json!({ "err": e.to_string() }) };
+            let first = eval(&db1, &qs[0]);
+            let second_after = eval(&db1, &qs[1]);
+            let db2 = match anything::Db::in_memory() { Ok(d) => d, Err(e) => return json!({ "err": e.to_string() }) };
+            let second_alone = eval(&db2, &qs[1]);
+            json!({ "ok": { "first": first, "second_after_first": second_after, "second_alone": second_alone } })
+        }
         "unit_display" => {
             let c = match compound_from(&case["unit"]) { Ok(a) => a, Err(e) => return json!({ "err": format!("bad case: {}", e) }) };
             json!({ "ok": { "text": c.to_string(), "plural": c.display(true).to_string() } })
